@@ -265,8 +265,9 @@ func VerifC07_ProprietaryHistory(size, size2 int) {
 	up := verifNondetBool("uplink")
 	cid := verifNondetU8("cid")
 	verifAssume(cid >= 128)
-	first := verifNondetBytes("first", 2)
-	_, _ = decodeDataPayloadToMACCommands(verifNondetBool("firstDir"), []Payload{&DataPayload{Bytes: first}})
+	// before any registration: a stream holding the CID that will be registered and a standard command, in the
+	// direction that will be registered (an implementation that memoises sizes has now seen both)
+	_, _ = decodeDataPayloadToMACCommands(up, []Payload{&DataPayload{Bytes: []byte{cid, byte(DevStatusReq)}}})
 	for round, sz := range []int{size, size2} {
 		verifAssert(RegisterProprietaryMACCommand(up, CID(cid), sz) == nil, "proprietary: registration succeeds")
 		_ = round
